@@ -308,3 +308,6 @@ func IsLazy(fd protoreflect.FieldDescriptor) bool {
 	l, ok := fd.(interface{ IsLazy() bool })
 	return ok && l.IsLazy()
 }
+
+// IsMessageSet reports whether md uses the MessageSet wire format.
+func IsMessageSet(md protoreflect.MessageDescriptor) bool { return messageset.IsMessageSet(md) }
